@@ -116,6 +116,11 @@ func runC08(e *Env) {
 			e.R.Check(ok && n >= 1, "C08.R3", "net/observation.Observation.handle:callback-gated", e.fpos(f), fmt.Sprintf("all %d invocations of the application callback are on the wantBeNotified() == true edge", n), "the application callback can be invoked for a notification that did not pass the freshness check (e.g. the first response, leaving no sequence/time recorded)")
 		}
 	}
+	if e.want("C08.R6") {
+		e.R.Rule("C08.R6", "flows+tables", "a notification keeps its Observe option on the way to the freshness check: reassembly options set once; the option registry admits 0–3 bytes", 2)
+		reassemblyHeaderSetOnce(e, "C08.R6")
+		observeDefAllows3Bytes(e, "C08.R6")
+	}
 	if e.want("C08.R4") {
 		checkErrCell(e, "C08.R4", "net/observation.Handler.NewObservation")
 		for _, sp := range pairSpecs {
